@@ -83,13 +83,62 @@ ca="d31a8d34648e60db7b86afbc53ef7ec2a4aded51296e08fea9e2b5a736ee62d63dbea45e8ca9
 S("kat_chachapoly_seal_rfc8439_282", "chachapoly_seal_spec %s %s %s %s"%(H(ka),H(na),H(aa),L(sun)), H(ca+"1ae10b594f09e26a7e902ecbd0600691"))
 S("kat_chachapoly_open_rfc8439_282", "chachapoly_open_spec %s %s %s %s"%(H(ka),H(na),H(aa),H(ca+"1ae10b594f09e26a7e902ecbd0600691")), "Some %s"%L(sun))
 
+
+# ---------------------------------------------------------------- DES / TDEA (FIPS 46-3, SP 800-67, NBS SP 500-20 style sets)
+import os as _os
+sys.path.insert(0, _os.path.dirname(_os.path.abspath(__file__)))
+import des_ref as DR
+def T3(k, p, c): return "(%s, %s, %s)" % (L(k), L(p), L(c))
+pub = [("133457799BBCDFF1","0123456789ABCDEF","85E813540F0AB405"), ("0101010101010101","8000000000000000","95F8A5E5DD31D900"),
+       ("0101010101010101","4000000000000000","DD7F121CA5015619"), ("8001010101010101","0000000000000000","95A8D72813DAA94D"),
+       ("1046913489980131","0000000000000000","88D55E54F54C97B4"), ("7CA110454A1A6E57","01A1D6D039776742","690F5B0D9A26939B")]
+for k,p_,c in pub: assert DR.des_block(bytes.fromhex(k), bytes.fromhex(p_)).hex().upper() == c
+rows = [(bytes.fromhex(k), bytes.fromhex(p_), bytes.fromhex(c)) for k,p_,c in pub]
+k01 = bytes([1]*8)
+for i in range(64):                                   # variable plaintext known answer test
+    pt = (1 << (63 - i)).to_bytes(8, "big"); rows.append((k01, pt, DR.des_block(k01, pt)))
+for i in range(64):                                   # variable key known answer test (non-parity bits)
+    if i % 8 == 7: continue
+    k = bytes(a | b for a, b in zip(k01, (1 << (63 - i)).to_bytes(8, "big"))); rows.append((k, bytes(8), DR.des_block(k, bytes(8))))
+import random as _r
+rr = _r.Random(12)
+for k in ("0101010101010101","FEFEFEFEFEFEFEFE","E0E0E0E0F1F1F1F1","1F1F1F1F0E0E0E0E","01FE01FE01FE01FE","E01FE01FF10EF10E"):   # weak / semi-weak keys
+    pt = bytes(rr.getrandbits(8) for _ in range(8)); rows.append((bytes.fromhex(k), pt, DR.des_block(bytes.fromhex(k), pt)))
+for _ in range(24):
+    k = bytes(rr.getrandbits(8) for _ in range(8)); pt = bytes(rr.getrandbits(8) for _ in range(8)); rows.append((k, pt, DR.des_block(k, pt)))
+sym.append("(* single DES: published vectors first (FIPS 46 worked example, NBS variable-plaintext / variable-key / permutation / substitution\n   samples), then the full variable-plaintext and variable-key sets, weak and semi-weak keys and random keys (values from tools/c12/des_ref.py,\n   itself checked against the published ones and the openssl CLI).  Each row is checked in both directions on the FIPS 46-3 specification\n   AND on the code-shaped deskey/cookey/desfunc model - the known-answer tie for the hypothesis single_des_is_fips46 *)")
+sym.append("Definition des_kat_rows : list (list N * list N * list N) := [\n  " + ";\n  ".join(T3(*r) for r in rows) + "].\n")
+sym.append("""Definition des_kat_row_ok (r : list N * list N * list N) : bool :=
+  let '(k, p, c) := r in
+  bytes_eqb (des_block false k p) c && bytes_eqb (des_block true k c) p &&
+  bytes_eqb (store_block (c_desfunc (c_deskey k false) (load_block p))) c &&
+  bytes_eqb (store_block (c_desfunc (c_deskey k true) (load_block c))) p.
+Example kat_des_spec_and_model_rows : forallb des_kat_row_ok des_kat_rows = true.
+Proof. vm_compute. reflexivity. Qed.
+Example kat_des_rows_count : length des_kat_rows = %d%%nat.
+Proof. reflexivity. Qed.
+""" % len(rows))
+k3 = "0123456789ABCDEF23456789ABCDEF01456789ABCDEF0123"
+for i,(p_,c) in enumerate((("5468652071756663","A826FD8CE53B855F"),("6B2062726F776E20","CCE21C8112256FE6"),("666F78206A756D70","68D5C05DD9B6B900"))):
+    S("kat_tdea_sp800_67_b1_%d"%(i+1), "des3_encrypt_block_spec %s %s"%(H(k3),H(p_)), H(c))
+    S("kat_tdea_sp800_67_b1_%d_decrypt"%(i+1), "des3_decrypt_block_spec %s %s"%(H(k3),H(c)), H(p_))
+    S("kat_model_tdea_sp800_67_b1_%d"%(i+1), "ps_des3_encrypt_block (ps_des3_init_key %s) %s"%(H(k3),H(p_)), H(c))
+    S("kat_model_tdea_sp800_67_b1_%d_decrypt"%(i+1), "ps_des3_decrypt_block (ps_des3_init_key %s) %s"%(H(k3),H(c)), H(p_))
+kc = bytes.fromhex("0123456789abcdeffedcba987654321089abcdef01234567"); ivc = bytes.fromhex("1234567890abcdef")
+ptc = b"Now is the time for all good men to come to aid."[:48]
+ctc = DR.des3_cbc(kc, ivc, ptc)
+S("kat_des3_cbc_three_key", "des3_cbc_encrypt_spec %s %s %s"%(L(kc),L(ivc),L(ptc)), L(ctc))
+S("kat_des3_cbc_three_key_decrypt", "des3_cbc_decrypt_spec %s %s %s"%(L(kc),L(ivc),L(ctc)), L(ptc))
+S("kat_model_des3_cbc_three_key_split_inplace", "fst (ps_des3_decrypt_calls %s true %s [%s; %s])"%(L(kc),L(ivc),L(ctc[:16]),L(ctc[16:])), L(ptc))
+
 EXTRA = "\n".join(sym)
 print("""(* C12 - known answers from the standards (FIPS 180-4 examples, RFC 1321 A.5, RFC 2202, RFC 4231,
    RFC 5869 A.1, RFC 6070, FIPS 197, SP 800-38A, SP 800-38D test cases, RFC 8439) evaluated on the
    Gallina specifications by the kernel's vm.  Generated by tools/c12/gen_kat.py from the published
    vectors; kept small enough to compile in seconds. *)
 From Coq Require Import List NArith ZArith.
-From MV Require Import Crypto.CryptoPrims Crypto.CryptoSpec Crypto.CryptoModel Crypto.CryptoSym.
+From MV Require Import Crypto.CryptoPrims Crypto.CryptoSpec Crypto.CryptoModel Crypto.CryptoSym
+                       Crypto.CryptoDes Crypto.CryptoDesModel.
 Import ListNotations.
 Local Open Scope N_scope.
 """)
